@@ -17,7 +17,7 @@ RULES = {
     "C13": "push/pop/outcome/clone/rebuild histories on a MoveChain checked step by step against a reference (start, accepted moves, outcome)",
     "C14": "shuffle-heavy game histories with pops, rebuilds and clock overlays; calc_outcome / set_auto_outcome judged by outcome class, "
            "repetition counts compared exactly (hook) and through an instrumented Repeat table",
-    "C17": "read phases with 1-4 interleaved walkers and printers (all NumberPolicy x Style x GameStatusPolicy, failing sinks) over chains built by histories",
+    "C17": "read phases with 1-4 interleaved walkers and printers (all NumberPolicy x Style x GameStatusPolicy, failing sinks, harness-written SAN as the expected text) over chains built by histories",
 }
 
 # Rare-condition probes each property's workload is expected to reach; one that stays at
